@@ -513,6 +513,142 @@ example : ((execOrderP exR prR (initX w0r 2) [4, 5, 14, 15, 17, 19]).get exR (.r
 
 end ExR
 
+/-! ... and with an ORDERING TOKEN between the producer and its source: source 0 → producer 1 —dep→ token 2 (a plain literal)
+    —dep→ dependent source 3 → stored call 4.  The token and the Barrier are contracted away by `_prune_literal_if_trivial`;
+    the order producer → read-back of the source survives as a direct edge. -/
+namespace ExT
+open Uberjob.Phys Uberjob.Exec
+
+def exT : Input :=
+  ⟨[0, 1, 2, 3, 4], [2], [⟨0, 1, .pos 0⟩, ⟨1, 2, .dep⟩, ⟨2, 3, .dep⟩, ⟨3, 4, .pos 0⟩],
+   [(0, true), (3, true), (4, false)], [3, 4], some 4⟩
+def prT (j : Nat) : Option Nat := if j = 1 then some 3 else none
+def owT (u : Nat) : Option Nat := if u = 1 ∨ u = 2 then some 3 else none
+def w0t : World := ⟨fun i => if i = 0 then some (.src 0 1, 1) else none⟩
+def exTrun : List Engine.Label :=
+  [.spawn,
+   .get 0 (.node 4), .check 0, .finOk 0, .release 0 5, .taskDone 0,
+   .get 0 (.node 5), .check 0, .finOk 0, .release 0 19, .taskDone 0,
+   .get 0 (.node 19), .check 0, .finOk 0, .release 0 20, .taskDone 0,
+   .get 0 (.node 20), .check 0, .finOk 0, .release 0 22, .taskDone 0,
+   .get 0 (.node 22), .check 0, .finOk 0, .release 0 24, .taskDone 0,
+   .get 0 (.node 24), .check 0, .finOk 0, .taskDone 0,
+   .joinReturn, .setStop, .putDone, .get 0 .done, .check 0, .taskDone 0, .joined]
+
+theorem exT_setup : SetupP exT prT w0t none 2 where
+  wf := by constructor <;> decide
+  stale := by
+    intro x
+    by_cases hx : x < 5
+    · have : x = 0 ∨ x = 1 ∨ x = 2 ∨ x = 3 ∨ x = 4 := by omega
+      rcases this with rfl | rfl | rfl | rfl | rfl <;> decide
+    · have h1 : exT.isStale x = false := by
+        simp only [Input.isStale, exT, List.contains_eq_mem, List.mem_cons, List.not_mem_nil, or_false,
+          decide_eq_false_iff_not]
+        omega
+      rw [h1]
+      symm
+      apply ExQ.isStale_isolated (toLPlan_wf (by constructor <;> decide))
+      · show exT.logicalPreds x = []
+        simp only [Input.logicalPreds, exT, List.filter_cons, List.filter_nil]
+        have h1 : ((1 : Nat) == x) = false := by simp; omega
+        have h2 : ((2 : Nat) == x) = false := by simp; omega
+        have h3 : ((3 : Nat) == x) = false := by simp; omega
+        have h4 : ((4 : Nat) == x) = false := by simp; omega
+        simp [h1, h2, h3, h4, dedup]
+      · show exT.regOf x = none
+        simp only [Input.regOf, exT, List.find?_cons, List.find?_nil]
+        have h0 : ((0 : Nat) == x) = false := by simp; omega
+        have h3 : ((3 : Nat) == x) = false := by simp; omega
+        have h4 : ((4 : Nat) == x) = false := by simp; omega
+        simp [h0, h3, h4]
+  litArgs := by decide
+  good := good_empty _ (by
+    intro i hi
+    have : i ≠ 0 := by
+      rintro rfl
+      have : exT.toLPlan.reg 0 = some true := by decide
+      rw [this] at hi; cases hi
+    simp [w0t, this])
+  below := by
+    intro i m hm
+    by_cases hi : i = 0
+    · subst hi; simp [World.mtime, w0t] at hm; omega
+    · simp [World.mtime, w0t, hi] at hm
+  fresh := by intro f hf; cases hf
+  prodOk := by
+    intro j d hp
+    unfold prT at hp
+    split at hp
+    · next hj =>
+      subst hj; cases hp
+      exact ⟨by decide, by decide, by decide,
+        Cache.Reach.step (Cache.Reach.step (Cache.Reach.refl 1) (by decide : 1 ∈ exT.toLPlan.preds 2)) (by decide), by decide⟩
+    · cases hp
+  ownEx := by
+    refine ⟨owT, ?_, ?_⟩
+    · intro j d hp
+      unfold prT at hp
+      split at hp
+      · next hj => subst hj; cases hp; rfl
+      · cases hp
+    · intro u d hu
+      unfold owT at hu
+      split at hu
+      · next hj =>
+        cases hu
+        rcases hj with rfl | rfl
+        · exact ⟨by decide, by decide, by decide⟩
+        · exact ⟨by decide, by decide, by decide⟩
+      · cases hu
+  prodInj := by
+    intro j j' d h1 h2
+    unfold prT at h1 h2
+    split at h1 <;> split at h2 <;> simp_all
+  srcStale := by
+    intro d hr hst
+    refine ⟨1, ?_⟩
+    have hd : d = 3 ∨ d = 4 := by
+      simp only [Input.isStale, exT, List.contains_eq_mem, List.mem_cons, List.not_mem_nil, or_false,
+        decide_eq_true_eq] at hst
+      exact hst
+    rcases hd with rfl | rfl
+    · rfl
+    · exact absurd hr (by decide)
+  depsUp := by
+    intro j d hp q sq hq hr hne
+    unfold prT at hp
+    split at hp
+    · next hj =>
+      subst hj; cases hp
+      have hle := Cache.Reach.le (toLPlan_wf (by constructor <;> decide)) hr
+      have hq3 : q = 0 ∨ q = 1 ∨ q = 2 ∨ q = 3 := by omega
+      rcases hq3 with rfl | rfl | rfl | rfl
+      · exact Cache.Reach.step (Cache.Reach.refl 0) (by decide)
+      · exact Cache.Reach.refl 1
+      · have : exT.regOf 2 = none := by decide
+        rw [this] at hq; cases hq
+      · exact absurd rfl hne
+    · cases hp
+
+theorem exT_run : ∃ s, Engine.Reach (engineGraph exT) ⟨1, some 0⟩ s ∧ s.coord = .returned false ∧ s.failed = [] ∧
+    s.okd = [4, 5, 19, 20, 22, 24] := by
+  have hd : (Engine.run? (engineGraph exT) ⟨1, some 0⟩ (Engine.init (engineGraph exT)) exTrun).map
+      (fun s => (s.coord, s.failed, s.okd)) = some (.returned false, [], [4, 5, 19, 20, 22, 24]) := by decide
+  cases hr : Engine.run? (engineGraph exT) ⟨1, some 0⟩ (Engine.init (engineGraph exT)) exTrun with
+  | none => rw [hr] at hd; cases hd
+  | some s =>
+    rw [hr] at hd
+    simp only [Option.map_some, Option.some.injEq, Prod.mk.injEq] at hd
+    exact ⟨s, Engine.reach_of_run Engine.Reach.init hr, hd.1, hd.2.1, hd.2.2⟩
+
+example : ((execOrderP exT prT (initX w0t 2) [4, 5, 19, 20, 22, 24]).w.st 3).map (fun p => (p.1.toStr, p.2))
+    = some ("a1(s0.1)", 2) := by decide
+example : ((execOrderP exT prT (initX w0t 2) [4, 5, 19, 20, 22, 24]).w.st 4).map (fun p => (p.1.toStr, p.2))
+    = some ("a4(a1(s0.1))", 3) := by decide
+
+end ExT
+
 /-! Non-vacuity: a history with a stale stored value, then the repairing run. -/
 def chainQ : LPlan := ⟨3, fun i => if i = 0 then [] else [i - 1], fun i => if i = 0 then [] else [i - 1],
   fun i => if i = 0 then some true else if i = 2 then some false else none⟩
